@@ -71,6 +71,8 @@ def check(ctx):
     from ..sigrules import signatures as _signatures
 
     _signatures(ctx, "R-SIG", classes=('skmatter.decomposition.KernelPCovR',))
+    # readers (transform / predict / score ...) leave the fitted state untouched and keep no result buffer on the estimator
+    protocols.reader_state_obligations(ctx, "R-STATE", "KernelPCovR", ctx.P.cls("skmatter.decomposition.KernelPCovR"))
     from ..flagrules import class_flag_equivalence as _cfe
     from ..harness import arr as _arr, integer as _integer, scalar as _scalar
 
